@@ -18,6 +18,10 @@ CONSTANTS EUnits,       \* energy units explored, e.g. {"int","1/cm","nm"}
           LUnits,       \* length units explored
           Routines,     \* names of library routines the user may call
           Raising,      \* routines in which an exception may be raised
+          MaxPool,      \* context-manager objects built ahead of their use
+          BackupAt,     \* "enter": the backup of the active units is taken
+                        \*   in __enter__ (the code); "init": in __init__
+                        \*   (negative control)
           MaxCtx,       \* bound on nesting of contexts
           MaxSteps      \* bound on behaviour length
 
@@ -46,11 +50,13 @@ VARIABLES
   euCount,   \* Manager._in_eu_count
   euFlag,    \* Manager._in_energy_units_context
   frames,    \* stack of library routines in flight [name, pc, entry, bk, depth]
+  pool,      \* energy_units objects constructed but possibly not entered:
+             \* sequence of [units, bk0 (units active at construction), open]
   exc,       \* an exception is propagating
   steps,
   viol       \* ghost: a routine returned normally with changed units
 
-vars == <<cur, saved, ctx, euCount, euFlag, frames, exc, steps, viol>>
+vars == <<cur, saved, ctx, euCount, euFlag, frames, pool, exc, steps, viol>>
 
 NoSaved == [t \in {} |-> "x"]
 
@@ -60,6 +66,7 @@ Init ==
   /\ ctx = << >>
   /\ euCount = 0 /\ euFlag = FALSE
   /\ frames = << >>
+  /\ pool = << >>
   /\ exc = FALSE
   /\ steps = 0
   /\ viol = FALSE
@@ -80,13 +87,14 @@ RawUnsetP(t) ==
   /\ cur' = [cur EXCEPT ![t] = saved[t]]
   /\ UNCHANGED saved
 
-\* energy_units(u).__enter__
-EnterEUP(u, inlib) ==
-  /\ ctx' = Append(ctx, [kind |-> "eu", units |-> u, backup |-> cur.energy,
-                         lib |-> inlib])
+\* energy_units(u).__enter__ ; obj = 0 for an inline `with energy_units(u):`
+EnterEUObj(u, inlib, obj, bk) ==
+  /\ ctx' = Append(ctx, [kind |-> "eu", units |-> u, backup |-> bk,
+                         lib |-> inlib, obj |-> obj, atentry |-> cur.energy])
   /\ RawSetP("energy", u)
   /\ euFlag' = TRUE
   /\ euCount' = euCount + 1
+EnterEUP(u, inlib) == EnterEUObj(u, inlib, 0, cur.energy)
 
 \* energy_units.__exit__ (also when an exception is propagating)
 ExitEUP ==
@@ -99,7 +107,7 @@ ExitEUP ==
 \* length_units(u).__enter__ / __exit__
 EnterLenP(u, inlib) ==
   /\ ctx' = Append(ctx, [kind |-> "len", units |-> u, backup |-> cur.length,
-                         lib |-> inlib])
+                         lib |-> inlib, obj |-> 0, atentry |-> cur.length])
   /\ RawSetP("length", u)
   /\ UNCHANGED <<euFlag, euCount>>
 
@@ -116,26 +124,40 @@ Tick == steps' = steps + 1
 (* ------------------------------ user actions --------------------------- *)
 UEnterEU(u) ==
   /\ ~InLib /\ ~exc /\ Len(ctx) < MaxCtx
-  /\ EnterEUP(u, FALSE) /\ UNCHANGED <<frames, exc, viol>> /\ Tick
+  /\ EnterEUP(u, FALSE) /\ UNCHANGED <<frames, pool, exc, viol>> /\ Tick
+
+\* e = energy_units(u)   (constructed now, entered later, possibly reused)
+UConstruct(u) ==
+  /\ ~InLib /\ ~exc /\ Len(pool) < MaxPool
+  /\ pool' = Append(pool, [units |-> u, bk0 |-> cur.energy])
+  /\ UNCHANGED <<cur, saved, ctx, euCount, euFlag, frames, exc, viol>> /\ Tick
+
+\* with e:      (context managers are not re-entrant: e must not be open)
+UEnterObj(i) ==
+  /\ ~InLib /\ ~exc /\ Len(ctx) < MaxCtx /\ i \in 1 .. Len(pool)
+  /\ \A j \in 1 .. Len(ctx) : ctx[j].obj # i
+  /\ EnterEUObj(pool[i].units, FALSE, i,
+                IF BackupAt = "enter" THEN cur.energy ELSE pool[i].bk0)
+  /\ UNCHANGED <<frames, pool, exc, viol>> /\ Tick
 
 UEnterLen(u) ==
   /\ ~InLib /\ ~exc /\ Len(ctx) < MaxCtx
-  /\ EnterLenP(u, FALSE) /\ UNCHANGED <<frames, exc, viol>> /\ Tick
+  /\ EnterLenP(u, FALSE) /\ UNCHANGED <<frames, pool, exc, viol>> /\ Tick
 
 UExit ==
   /\ ~InLib /\ ~exc /\ ctx # << >>
-  /\ ExitTopP /\ UNCHANGED <<frames, exc, viol>> /\ Tick
+  /\ ExitTopP /\ UNCHANGED <<frames, pool, exc, viol>> /\ Tick
 
 UCall(name) ==
   /\ ~InLib /\ ~exc
   /\ frames' = << [name |-> name, pc |-> 1, entry |-> cur, bk |-> NoBk,
                    depth |-> Len(ctx)] >>
-  /\ UNCHANGED <<cur, saved, ctx, euCount, euFlag, exc, viol>> /\ Tick
+  /\ UNCHANGED <<cur, saved, ctx, euCount, euFlag, pool, exc, viol>> /\ Tick
 
 URaise ==                       \* user code raises inside its contexts
   /\ ~InLib /\ ~exc /\ ctx # << >>
   /\ exc' = TRUE
-  /\ UNCHANGED <<cur, saved, ctx, euCount, euFlag, frames, viol>> /\ Tick
+  /\ UNCHANGED <<cur, saved, ctx, euCount, euFlag, frames, pool, viol>> /\ Tick
 
 (* ---------------------------- library execution ------------------------ *)
 Top == Last(frames)
@@ -168,21 +190,21 @@ LStep ==
                                 [name |-> "set_rwa", pc |-> 1, entry |-> cur,
                                  bk |-> NoBk, depth |-> Len(ctx)])
             /\ UNCHANGED <<cur, saved, ctx, euCount, euFlag>>
-  /\ UNCHANGED <<exc, viol>> /\ Tick
+  /\ UNCHANGED <<pool, exc, viol>> /\ Tick
 
 \* normal return of the routine on top of the stack
 LReturn ==
   /\ InLib /\ ~exc /\ Top.pc > Len(Prog(Top.name))
   /\ frames' = Front(frames)
   /\ viol' = (viol \/ cur # Top.entry)
-  /\ UNCHANGED <<cur, saved, ctx, euCount, euFlag, exc>> /\ Tick
+  /\ UNCHANGED <<cur, saved, ctx, euCount, euFlag, pool, exc>> /\ Tick
 
 \* a routine raises at any point of its program
 LRaise ==
   /\ InLib /\ ~exc
   /\ \A i \in 1 .. Len(frames) : frames[i].name \in Raising
   /\ exc' = TRUE
-  /\ UNCHANGED <<cur, saved, ctx, euCount, euFlag, frames, viol>> /\ Tick
+  /\ UNCHANGED <<cur, saved, ctx, euCount, euFlag, frames, pool, viol>> /\ Tick
 
 (* ------------------------------- unwinding ----------------------------- *)
 \* Python leaves the innermost `with` first; a routine's frame is dropped
@@ -196,16 +218,17 @@ Unwind ==
        THEN /\ ExitTopP /\ UNCHANGED <<frames, exc>>
      ELSE /\ exc' = FALSE                     \* reached the top level
           /\ UNCHANGED <<cur, saved, ctx, euCount, euFlag, frames>>
-  /\ UNCHANGED viol /\ Tick
+  /\ UNCHANGED <<viol, pool>> /\ Tick
 
 \* the user catches the exception inside her own contexts
 UCatch ==
   /\ exc /\ ~InLib
   /\ exc' = FALSE
-  /\ UNCHANGED <<cur, saved, ctx, euCount, euFlag, frames, viol>> /\ Tick
+  /\ UNCHANGED <<cur, saved, ctx, euCount, euFlag, frames, pool, viol>> /\ Tick
 
 Next ==
-  \/ \E u \in EUnits : UEnterEU(u)
+  \/ \E u \in EUnits : UEnterEU(u) \/ UConstruct(u)
+  \/ \E i \in 1 .. MaxPool : UEnterObj(i)
   \/ \E u \in LUnits : UEnterLen(u)
   \/ UExit
   \/ \E r \in Routines : UCall(r)
@@ -226,8 +249,8 @@ CountFlagConsistent ==
 \* active when it was entered (normal exit and exit by exception).
 Restore ==
   [][ (Len(ctx') < Len(ctx)) =>
-        (IF Last(ctx).kind = "eu" THEN cur'.energy = Last(ctx).backup
-                                  ELSE cur'.length = Last(ctx).backup) ]_vars
+        (IF Last(ctx).kind = "eu" THEN cur'.energy = Last(ctx).atentry
+                                  ELSE cur'.length = Last(ctx).atentry) ]_vars
 
 \* the units the user is entitled to see: those of her innermost context
 RECURSIVE InnerUnits(_, _, _)
